@@ -5,7 +5,7 @@
 use super::*;
 use super::verif_kani_lorawan_device_async_common::*;
 
-//@h id=async_send_faults props=C06,C04 tier=quick build=dev-eu868-noc cost=150 timeout=1800
+//@h id=async_send_faults props=C06,C04,C05,C10 tier=quick build=dev-eu868-noc cost=150 timeout=1800
 //@bounds one Device::send on a joined Class A device from an arbitrary uplink counter (all 2^32 values), a radio fault at an arbitrary call position (tx, low_power, setup_rx x2, rx_single x2, or none), arbitrary receive outcomes (timeout / any frame the MAC accepts or rejects, up to the repeated-NoUpdate bound of the unwinding), arbitrary lead time <= 1000 ms and TX timestamps < 2^31
 //@encodes async_device::Device::{send, rx_downlink, rx_listen, between_windows, window_complete, handle_mac_response}, From<mac::Response> for SendResponse
 //@assumes Mac::{send, handle_rx, rx2_complete, get_rx_delay, get_fcnt_up} replaced by contract stubs whose contracts are the facts proved by the MAC-level harnesses; built without the class-c feature (futures::select is outside the claim); timers are immediate
@@ -321,4 +321,38 @@ fn async_join() {
         kani::cover!(matches!(r, Ok(JoinResponse::JoinSuccess)) && T_LOG.v.1 == 2 && J_NOUPDATE.v == 1, "foreign frame in RX1, JoinAccept in RX2");
         kani::cover!(matches!(r, Ok(JoinResponse::NoJoinAccept)), "no join accept");
     }
+}
+
+//@h id=async_set_adr props=C12,C20 tier=quick build=dev-eu868-noc cost=20 timeout=900
+//@bounds async_device::Device::{new_with_session, set_adr, get_adr, get_session, set_datarate, get_datarate} with and without a stored session (arbitrary session): the stored session is installed unchanged, disabling ADR restarts the ADR acknowledgement count and changes nothing else, enabling it changes only the flag
+//@encodes async_device::Device::{new_with_session, set_adr, get_adr, get_session, set_datarate, get_datarate}
+#[kani::proof]
+#[kani::unwind(20)]
+fn async_set_adr() {
+    use crate::mac::verif_kani_lorawan_device_mac_common::{any_session_pub as any_session, session_same_pub as session_same};
+    crate::mac::verif_kani_lorawan_device_mac_common::vinit();
+    let with_session: bool = kani::any();
+    let s = any_session(&[0x08]);
+    let mut want = s.clone();
+    let radio = MRadio { calls: 0, fail_at: usize::MAX, tx_calls: 0, tx_ok: 0, always_rx: false };
+    let mut dev: Device<MRadio, MTimer, NoRng, 256, 1> = Device::new_with_session(
+        region::Configuration::new(region::Region::EU868), radio, MTimer, NoRng, if with_session { Some(s) } else { None });
+    match dev.get_session() {
+        Some(got) => crate::vcheck!(with_session && session_same(got, &want), "C20: a device created from a stored session holds exactly that session"),
+        None => crate::vcheck!(!with_session, "C20: the stored session is installed"),
+    }
+    let en: bool = kani::any();
+    dev.set_adr(en);
+    crate::vcheck!(dev.get_adr() == en, "C12: ADR is enabled exactly when the application enabled it");
+    if !en {
+        want.adr_ack_cnt = 0;
+    }
+    match dev.get_session() {
+        Some(got) => crate::vcheck!(with_session && session_same(got, &want), "C12: disabling ADR restarts the ADR acknowledgement count; nothing else in the session changes"),
+        None => crate::vcheck!(!with_session, "C20: the session is kept"),
+    }
+    let dr = crate::mac::verif_kani_lorawan_device_mac_common::any_dr();
+    dev.set_datarate(dr);
+    crate::vcheck!(dev.get_datarate() == dr, "C12: the data rate the application sets is the one in force");
+    kani::cover!(with_session && !en, "ADR disabled on a restored device");
 }
